@@ -1,49 +1,71 @@
-(* C13 (3): Fourier1 per-direction factor f1s n enclosed by interval arithmetic, n in [1, 2, 4, 13, 21, 28]
+(* C13 (3): Fourier1 per-direction factor f1s n enclosed by interval arithmetic on its closed form, n in [5, 12, 21, 28, 37, 44, 53, 60]
    (file generated once by a script, split for parallel compilation; independent of /repo). *)
-From Coq Require Import ZArith List Reals Lra.
+From Coq Require Import ZArith List Lia Reals Lra.
 From Interval Require Import Tactic.
 From Flocq Require Import Raux.
-From P Require Import C13_gen C13_model C13_proofs_weights.
+From P Require Import C13_gen C13_model C13_proofs_weights C13_proofs_f1c.
 Open Scope R_scope.
 
-Lemma f1s_bound_1 : 1 - / IZR 1 <= f1s 1 <= 1.
+Lemma f1s_bound_5 : 1 - / IZR 5 <= f1s 5 <= 1.
 Proof.
-  assert (H : Rabs (f1s 1 - (1 - / IZR 1 / 2)) <= / IZR 1 / 2).
-  { unfold f1s, fourier1_dir, sumR. ev. interval. }
+  rewrite f1s_closed_form by (clear; lia).
+  assert (H : Rabs (f1s_closed 5 - (1 - / IZR 5 / 2)) <= / IZR 5 / 2).
+  { unfold f1s_closed, f1_term, sumR. ev. interval. }
   apply Rabs_le_inv in H. lra.
 Qed.
 
-Lemma f1s_bound_2 : 1 - / IZR 2 <= f1s 2 <= 1.
+Lemma f1s_bound_12 : 1 - / IZR 12 <= f1s 12 <= 1.
 Proof.
-  assert (H : Rabs (f1s 2 - (1 - / IZR 2 / 2)) <= / IZR 2 / 2).
-  { unfold f1s, fourier1_dir, sumR. ev. interval. }
-  apply Rabs_le_inv in H. lra.
-Qed.
-
-Lemma f1s_bound_4 : 1 - / IZR 4 <= f1s 4 <= 1.
-Proof.
-  assert (H : Rabs (f1s 4 - (1 - / IZR 4 / 2)) <= / IZR 4 / 2).
-  { unfold f1s, fourier1_dir, sumR. ev. interval. }
-  apply Rabs_le_inv in H. lra.
-Qed.
-
-Lemma f1s_bound_13 : 1 - / IZR 13 <= f1s 13 <= 1.
-Proof.
-  assert (H : Rabs (f1s 13 - (1 - / IZR 13 / 2)) <= / IZR 13 / 2).
-  { unfold f1s, fourier1_dir, sumR. ev. interval. }
+  rewrite f1s_closed_form by (clear; lia).
+  assert (H : Rabs (f1s_closed 12 - (1 - / IZR 12 / 2)) <= / IZR 12 / 2).
+  { unfold f1s_closed, f1_term, sumR. ev. interval. }
   apply Rabs_le_inv in H. lra.
 Qed.
 
 Lemma f1s_bound_21 : 1 - / IZR 21 <= f1s 21 <= 1.
 Proof.
-  assert (H : Rabs (f1s 21 - (1 - / IZR 21 / 2)) <= / IZR 21 / 2).
-  { unfold f1s, fourier1_dir, sumR. ev. interval. }
+  rewrite f1s_closed_form by (clear; lia).
+  assert (H : Rabs (f1s_closed 21 - (1 - / IZR 21 / 2)) <= / IZR 21 / 2).
+  { unfold f1s_closed, f1_term, sumR. ev. interval. }
   apply Rabs_le_inv in H. lra.
 Qed.
 
 Lemma f1s_bound_28 : 1 - / IZR 28 <= f1s 28 <= 1.
 Proof.
-  assert (H : Rabs (f1s 28 - (1 - / IZR 28 / 2)) <= / IZR 28 / 2).
-  { unfold f1s, fourier1_dir, sumR. ev. interval. }
+  rewrite f1s_closed_form by (clear; lia).
+  assert (H : Rabs (f1s_closed 28 - (1 - / IZR 28 / 2)) <= / IZR 28 / 2).
+  { unfold f1s_closed, f1_term, sumR. ev. interval. }
+  apply Rabs_le_inv in H. lra.
+Qed.
+
+Lemma f1s_bound_37 : 1 - / IZR 37 <= f1s 37 <= 1.
+Proof.
+  rewrite f1s_closed_form by (clear; lia).
+  assert (H : Rabs (f1s_closed 37 - (1 - / IZR 37 / 2)) <= / IZR 37 / 2).
+  { unfold f1s_closed, f1_term, sumR. ev. interval. }
+  apply Rabs_le_inv in H. lra.
+Qed.
+
+Lemma f1s_bound_44 : 1 - / IZR 44 <= f1s 44 <= 1.
+Proof.
+  rewrite f1s_closed_form by (clear; lia).
+  assert (H : Rabs (f1s_closed 44 - (1 - / IZR 44 / 2)) <= / IZR 44 / 2).
+  { unfold f1s_closed, f1_term, sumR. ev. interval. }
+  apply Rabs_le_inv in H. lra.
+Qed.
+
+Lemma f1s_bound_53 : 1 - / IZR 53 <= f1s 53 <= 1.
+Proof.
+  rewrite f1s_closed_form by (clear; lia).
+  assert (H : Rabs (f1s_closed 53 - (1 - / IZR 53 / 2)) <= / IZR 53 / 2).
+  { unfold f1s_closed, f1_term, sumR. ev. interval. }
+  apply Rabs_le_inv in H. lra.
+Qed.
+
+Lemma f1s_bound_60 : 1 - / IZR 60 <= f1s 60 <= 1.
+Proof.
+  rewrite f1s_closed_form by (clear; lia).
+  assert (H : Rabs (f1s_closed 60 - (1 - / IZR 60 / 2)) <= / IZR 60 / 2).
+  { unfold f1s_closed, f1_term, sumR. ev. interval. }
   apply Rabs_le_inv in H. lra.
 Qed.
